@@ -321,7 +321,14 @@ class TreeToODE(lark.Transformer):
 
             for atom in line:  # State, Parameters or Assignment
                 for component in atom.components:
-                    components[component][mapping[type(atom)]].add(atom)
+                    group = components[component][mapping[type(atom)]]
+                    if isinstance(atom, atoms.Assignment) and atom in group:
+                        # Assignments compare equal when they have the same dependencies,
+                        # so the set would silently keep only one of two different definitions
+                        other = next(a for a in group if a == atom)
+                        if other.value.tree != atom.value.tree:
+                            raise exceptions.DuplicateSymbolError({atom.name})
+                    group.add(atom)
 
         # Make sets frozen
         frozen_components: dict[str, dict[str, frozenset[atoms.Atom]]] = {}
